@@ -30,6 +30,75 @@ Definition qmax0 (a : Q) : Q := if Qlt_le_dec 0 a then a else 0.    (* python ma
    detector.pixel.array += detector.charge.array *)
 Definition collect (pixel charge : Q) : Q := pixel + charge.
 
+(* What `detector.charge.array` is at collection time (pyxel/data_structure/charge.py).  The generated charge
+   is held as an array (add_charge_array on an empty particle frame: `_array += array`), as particles
+   (add_charge / add_charge_dataframe: rows of the DataFrame with a position and a number of electrons) or both
+   (an array met by particles is turned into particles at the pixel centres and vice versa); the property
+   `Charge.array` re-bins the particle frame:  index = np.floor_divide(position, pixel size).astype(int),
+   array[index_ver, index_hor] += number.   Frames are flat, row-major.  Arrays are non-negative (the
+   array -> particle conversion keeps entries > 0 only: zero entries contribute nothing either way). *)
+Record particle := { p_ver : Q; p_hor : Q; p_num : Q }.
+
+Inductive charge_op :=
+| OpArray (a : list Q)                 (* Charge.add_charge_array *)
+| OpParticles (ps : list particle).    (* Charge.add_charge *)
+
+Definition bin_idx (pos size : Q) : Z := Qfloor (pos / size).
+
+Definition particle_in (rows cols : nat) (sv sh : Q) (p : particle) : bool :=
+  let iv := bin_idx (p_ver p) sv in
+  let ih := bin_idx (p_hor p) sh in
+  ((0 <=? iv) && (iv <? Z.of_nat rows) && (0 <=? ih) && (ih <? Z.of_nat cols))%Z.
+
+Definition flat_idx (cols : nat) (sv sh : Q) (p : particle) : nat :=
+  Z.to_nat (bin_idx (p_ver p) sv * Z.of_nat cols + bin_idx (p_hor p) sh).
+
+Fixpoint add_at (k : nat) (v : Q) (l : list Q) : list Q :=
+  match l, k with
+  | [], _ => []
+  | x :: t, O => (x + v) :: t
+  | x :: t, S k' => x :: add_at k' v t
+  end.
+
+Fixpoint bin_particles (cols : nat) (sv sh : Q) (ps : list particle) (acc : list Q) : list Q :=
+  match ps with
+  | [] => acc
+  | p :: t => bin_particles cols sv sh t (add_at (flat_idx cols sv sh p) (p_num p) acc)
+  end.
+
+Fixpoint qadd_list (a b : list Q) : list Q :=
+  match a, b with
+  | x :: a', y :: b' => (x + y) :: qadd_list a' b'
+  | _, _ => []
+  end.
+
+Fixpoint charge_array (cols : nat) (sv sh : Q) (ops : list charge_op) (acc : list Q) : list Q :=
+  match ops with
+  | [] => acc
+  | OpArray a :: t => charge_array cols sv sh t (qadd_list acc a)
+  | OpParticles ps :: t => charge_array cols sv sh t (bin_particles cols sv sh ps acc)
+  end.
+
+(* simple_collection on a detector whose charge was produced by `ops` *)
+Definition collect_ops (cols : nat) (sv sh : Q) (pixel : list Q) (ops : list charge_op) : list Q :=
+  qadd_list pixel (charge_array cols sv sh ops (map (fun _ => 0) pixel)).
+
+Fixpoint particles_total (ps : list particle) : Q :=
+  match ps with [] => 0 | p :: t => p_num p + particles_total t end.
+
+Fixpoint ops_total (ops : list charge_op) : Q :=
+  match ops with
+  | [] => 0
+  | OpArray a :: t => qsum a + ops_total t
+  | OpParticles ps :: t => particles_total ps + ops_total t
+  end.
+
+Definition op_ok (rows cols : nat) (sv sh : Q) (o : charge_op) : bool :=
+  match o with
+  | OpArray a => Nat.eqb (length a) (rows * cols)
+  | OpParticles ps => forallb (particle_in rows cols sv sh) ps
+  end.
+
 (* ------------------------------------------------------------------------------------------ apply_qe *)
 (* array.astype(int): truncation toward zero *)
 Definition qtrunc (p : Q) : Z := if Qlt_le_dec p 0 then Qceiling p else Qfloor p.
@@ -39,11 +108,30 @@ Definition qe_off (q p : Q) : Q := p * q.
    the draw is a parameter (Section variable with its range hypothesis in the proofs) *)
 Definition qe_on (binom : Z -> Q -> Z) (q p : Q) : Q := inject_Z (binom (qtrunc p) q).
 
+(* simple_conversion: the model argument overrides the detector characteristics; a characteristics without a
+   quantum efficiency raises; the selected value must lie in [0, 1] *)
+Definition select_arg (arg char : option Q) : option Q :=
+  match arg with Some a => Some a | None => char end.
+
+Definition qe_select (arg char : option Q) : option Q :=
+  match select_arg arg char with
+  | Some q => if Qle_bool 0 q && Qle_bool q 1 then Some q else None
+  | None => None
+  end.
+
 (* ------------------------------------------------------------------------------------------ full well
    array[array > fwc] = fwc ;  simple_full_well raises for fwc < 0 *)
 Definition full_well (c x : Q) : Q := if Qlt_le_dec c x then c else x.
 Definition simple_full_well (c : Q) (xs : list Q) : option (list Q) :=
   if Qlt_le_dec c 0 then None else Some (map (full_well c) xs).
+
+(* simple_full_well(detector, fwc): the argument overrides detector.characteristics.full_well_capacity; a
+   characteristics without a capacity raises *)
+Definition simple_full_well_sel (arg char : option Q) (xs : list Q) : option (list Q) :=
+  match select_arg arg char with
+  | Some c => simple_full_well c xs
+  | None => None
+  end.
 
 (* ------------------------------------------------------------------------------------------ IPC *)
 Record kernel := { k00 : Q; k01 : Q; k02 : Q; k10 : Q; k11 : Q; k12 : Q; k20 : Q; k21 : Q; k22 : Q }.
@@ -129,32 +217,25 @@ Definition clip_trapped (t pixel available pixel_diff : Q) (cp : option Q) : Q *
   let clipped := clipped_of t available pixel_diff cp in
   (clipped, pixel + (t - clipped)).
 
-(* second loop: `output_pixel` is overwritten by every species, `pixel_array` is NOT updated:
-   only the last species' clipped excess reaches the returned pixel *)
+(* second loop (as repaired by `fix: persistence returns the clipped charge of every trap species to the pixel`):
+   `output_pixel` starts as a copy of `pixel_array` and is handed to clip_trapped_charge as `pixel`, so the clipped
+   excess of EVERY species is added to it; `available_traps` is still computed from `pixel_array` *)
 Fixpoint clip_loop (sp : list species) (tr : list Q) (pixel pixel_diff out : Q) : Q * list Q :=
   match sp, tr with
   | s :: sp', t :: tr' =>
-      let '(c, o) := clip_trapped t pixel (pixel * dens s) pixel_diff (cap s) in
+      let '(c, o) := clip_trapped t out (pixel * dens s) pixel_diff (cap s) in
       let '(o', cs) := clip_loop sp' tr' pixel pixel_diff o in
       (o', c :: cs)
   | _, _ => (out, [])
   end.
 
-Definition persist_pixel (sp : list species) (tr : list Q) (pixel : Q) : Q * list Q :=
+Definition persist_pixel_raw (sp : list species) (tr : list Q) (pixel : Q) : Q * list Q :=
   let '(p1, t1) := trap_loop sp tr pixel in
   clip_loop sp t1 p1 (p1 - pixel) p1.
 
-(* what the second loop discards: the clipped excess of every species but the last *)
-Fixpoint clip_lost (sp : list species) (tr : list Q) (pixel pixel_diff : Q) : Q :=
-  match sp, tr with
-  | s :: ((_ :: _) as sp'), t :: ((_ :: _) as tr') =>
-      (t - fst (clip_trapped t pixel (pixel * dens s) pixel_diff (cap s)))
-      + clip_lost sp' tr' pixel pixel_diff
-  | _, _ => 0
-  end.
-
-Definition persist_lost (sp : list species) (tr : list Q) (pixel : Q) : Q :=
-  let '(p1, t1) := trap_loop sp tr pixel in clip_lost sp t1 p1 (p1 - pixel).
+(* the same numbers in lowest terms (Qred), so that fractions stay small over several readouts *)
+Definition persist_pixel (sp : list species) (tr : list Q) (pixel : Q) : Q * list Q :=
+  let '(p, ts) := persist_pixel_raw sp tr pixel in (Qred p, map Qred ts).
 
 (* several readouts: before each call `add` electrons are collected into the pixel *)
 Fixpoint persist_steps (steps : list (Q * list species)) (tr : list Q) (pixel : Q) : Q * list Q :=
@@ -202,19 +283,20 @@ Definition cdm_capture (gm bw pc a no : Q) : Q :=
   then qmax0 ((gm * (a * bw) - no) / (gm * bw + 1) * pc)
   else 0.
 
+(* the results are kept in lowest terms (Qred): same numbers, bounded size along a line *)
 Definition cdm_step (gm bw pc r a no : Q) : Q * Q :=
   let nc := cdm_capture gm bw pc a no in
   let no1 := no + nc in
   let nr := no1 * r in
   let a1 := a + (- (1) * nc + nr) in
   let no2 := no1 - nr in
-  (if Qlt_le_dec a1 thr then 0 else a1, no2).
+  (Qred (if Qlt_le_dec a1 thr then 0 else a1), Qred no2).
 
 Record cdm_par := {
-  gam : nat -> nat -> Q;     (* transfer index i, species k *)
-  pw : Q -> Q;               (* a |-> a ** (beta - 1) *)
-  pcap : nat -> Q -> Q;      (* species k, a |-> capture probability *)
-  rel : nat -> Q             (* species k |-> release probability *)
+  gam : nat -> nat -> Q;          (* transfer index i, species k *)
+  pw : nat -> nat -> Q -> Q;      (* i, k, a |-> a ** (beta - 1)             (a function of a alone in the code) *)
+  pcap : nat -> nat -> Q -> Q;    (* i, k, a |-> capture probability         (a function of k and a in the code) *)
+  rel : nat -> Q                  (* species k |-> release probability *)
 }.
 
 (* inner `for k` loop for one pixel (the pixel value is updated in place between species) *)
@@ -222,7 +304,7 @@ Fixpoint cdm_species (P : cdm_par) (i k : nat) (a : Q) (nos : list Q) : Q * list
   match nos with
   | [] => (a, [])
   | no :: rest =>
-      let '(a1, no1) := cdm_step (gam P i k) (pw P a) (pcap P k a) (rel P k) a no in
+      let '(a1, no1) := cdm_step (gam P i k) (pw P i k a) (pcap P i k a) (rel P k) a no in
       let '(a2, rest') := cdm_species P i (S k) a1 rest in
       (a2, no1 :: rest')
   end.
@@ -240,12 +322,36 @@ Fixpoint cdm_line (P : cdm_par) (i : nat) (px : list Q) (nos : list Q) : list Q 
 Definition cdm_run (P : cdm_par) (nsp : nat) (lines : list (list Q)) : list (list Q) :=
   map (fun px => fst (cdm_line P 0 px (repeat 0 nsp))) lines.
 
+(* every line with its own parameter record (factors that depend on the line) *)
+Fixpoint cdm_run_each (Ps : list cdm_par) (nsp : nat) (lines : list (list Q)) : list (list Q) :=
+  match Ps, lines with
+  | P :: Ps', px :: lines' => fst (cdm_line P 0 px (repeat 0 nsp)) :: cdm_run_each Ps' nsp lines'
+  | _, _ => []
+  end.
+
+(* the range checks of the wrapper `cdm` (as repaired by `fix: cdm rejects a zero 'max_electron_volume' and a zero
+   full well capacity`): the two divisors of the capture coefficients are strictly positive *)
+Definition cdm_params_ok (vg beta fwc t : Q) : bool :=
+  Qltb 0 vg && Qle_bool vg 1 && Qle_bool 0 beta && Qle_bool beta 1
+  && Qltb 0 fwc && Qle_bool fwc 10000000 && Qle_bool 0 t && Qle_bool t 10.
+
 (* executable instance for beta = 1: a ** 0 = 1, constant capture probabilities *)
 Definition cdm_par_beta1 (gs pcs rs : list Q) (inj : option Q) : cdm_par :=
   {| gam := fun i k => nth k gs 0 * match inj with Some n => n | None => inject_Z (Z.of_nat i) end;
-     pw := fun _ => 1;
-     pcap := fun k _ => nth k pcs 0;
+     pw := fun _ _ _ => 1;
+     pcap := fun _ k _ => nth k pcs 0;
      rel := fun k => nth k rs 0 |}.
+
+(* executable instance for ANY beta: the values numpy computes for a ** (beta - 1) and for the capture
+   probability at every (packet i, species k) of one line, as a table; (0, 0) where the packet is below the cut *)
+Definition cdm_par_table (gs rs : list Q) (inj : option Q) (tbl : list (list (Q * Q))) : cdm_par :=
+  {| gam := fun i k => nth k gs 0 * match inj with Some n => n | None => inject_Z (Z.of_nat i) end;
+     pw := fun i k _ => fst (nth k (nth i tbl []) (0, 0));
+     pcap := fun i k _ => snd (nth k (nth i tbl []) (0, 0));
+     rel := fun k => nth k rs 0 |}.
+
+Definition fac_ok (f : Q * Q) : bool := Qle_bool 0 (fst f) && Qle_bool 0 (snd f) && Qle_bool (snd f) 1.
+Definition table_ok (tbl : list (list (Q * Q))) : bool := forallb (forallb fac_ok) tbl.
 
 (* ============================================================================================
    Specification (right-hand sides of the theorems) and comparison helpers for the case files *)
@@ -306,12 +412,6 @@ Fixpoint persist_frame (c : pcase) (dt : Q) (j : nat) (pix : list Q) (trap : lis
   | _, _ => ([], [])
   end.
 
-Fixpoint qadd_list (a b : list Q) : list Q :=
-  match a, b with
-  | x :: a', y :: b' => (x + y) :: qadd_list a' b'
-  | _, _ => []
-  end.
-
 (* model run over the steps; true iff every observed step equals the model *)
 Fixpoint persist_agree (c : pcase) (pix : list Q) (trap : list (list Q)) (steps : list pstep) : bool :=
   match steps with
@@ -347,28 +447,92 @@ Definition tol_cdm : Q := 1 # 1000000000.      (* 1e-9 relative: float rounding 
 
 Inductive c15_case :=
 | KCollect (pixel charge out : list Q)
+| KCollectP (rows cols : nat) (sv sh : Q) (pixel : list Q) (ops : list charge_op) (out : list Q)
+                                                                     (* charge as arrays / particles / both *)
 | KQeOff (q : Q) (photon out : list Q)
 | KQeOn (q : Q) (photon out : list Q)
+| KQeSel (sampling : bool) (arg char : option Q) (photon : list Q) (out : option (list Q))
+                                                                     (* simple_conversion; None = raised *)
+| KQeMap (sampling : bool) (qs photon : list Q) (out : option (list Q))
+                                                                     (* conversion_with_qe_map: one efficiency per pixel *)
 | KFullWell (c : Q) (x : list Q) (out : option (list Q * list Q))   (* once, twice; None = raised *)
+| KFullWellS (arg char : option Q) (x : list Q) (out : option (list Q * list Q))
+                                                                     (* simple_full_well, both capacity sources *)
 | KKernel (c d a : Q) (out : option (list Q))                        (* None = raised *)
 | KIpc (c d a : Q) (fr out : frame)
 | KPersist (c : pcase)
 | KCdm (lines_in lines_out : list (list Q))                          (* any parameters: specification only *)
+| KCdmG (vg beta fwc t : Q) (raised : bool)                          (* the wrapper's range checks *)
+| KCdmT (gs rs : list Q) (inj : option Q) (tbls : list (list (list (Q * Q)))) (lines_in lines_out : list (list Q))
+                                                                     (* any beta, per-step factors from numpy *)
 | KCdmX (gs pcs rs : list Q) (inj : option Q) (lines_in lines_out : list (list Q)).  (* beta = 1, exact factors *)
 
 Definition kernel_sum_one (l : list Q) : bool := Qeq_bool (qsum l) 1 && Nat.eqb (length l) 9.
 
+(* no prefix of a line, in transfer order, holds more charge than the same prefix received (the traps only
+   hand charge to LATER packets); the last prefix is the line total *)
+Fixpoint prefix_ok (slack : Q) (li lo : list Q) (ai ao : Q) : bool :=
+  match li, lo with
+  | [], [] => true
+  | x :: li', y :: lo' => Qle_bool (ao + y) (ai + x + slack) && prefix_ok slack li' lo' (ai + x) (ao + y)
+  | _, _ => false
+  end.
+
 Definition cdm_spec (lines_in lines_out : list (list Q)) : bool :=
   all2 (fun li lo => Nat.eqb (length li) (length lo) && forallb (Qle_bool 0) lo
-                     && Qle_bool (qsum lo) (qsum li * (1 + tol_cdm))) lines_in lines_out.
+                     && Qle_bool (qsum lo) (qsum li * (1 + tol_cdm))
+                     && prefix_ok (qsum li * tol_cdm) li lo 0 0) lines_in lines_out.
+
+(* photo-conversion, judged per pixel.  Sampling: an integer in [0, floor p]; a draw with success probability
+   1 (0) returns all (none) of its trials, so the charge is exactly floor p (0). *)
+Definition qe_on_ok (q p o : Q) : bool :=
+  is_int o && Qle_bool 0 o && Qle_bool o (inject_Z (Qfloor p))
+  && (if Qeq_bool q 1 then Qeq_bool o (inject_Z (Qfloor p)) else true)
+  && (if Qeq_bool q 0 then Qeq_bool o 0 else true).
+Definition qe_off_ok (q p o : Q) : bool := Qeq_bool o (p * q) && Qle_bool 0 o && Qle_bool o p.
+
+Definition qe_in_range (q : Q) : bool := Qle_bool 0 q && Qle_bool q 1.
+
+Fixpoint all3 {A B C} (f : A -> B -> C -> bool) (l : list A) (m : list B) (n : list C) : bool :=
+  match l, m, n with
+  | [], [], [] => true
+  | x :: l', y :: m', z :: n' => f x y z && all3 f l' m' n'
+  | _, _, _ => false
+  end.
+
+(* conversion_with_qe_map: a map with a value outside [0, 1] is refused; otherwise pixel by pixel as apply_qe *)
+Definition qe_map_model (qs photon : list Q) : option (list Q) :=
+  if forallb qe_in_range qs then Some (map (fun qp => qe_off (fst qp) (snd qp)) (combine qs photon)) else None.
 
 Definition case_mismatch (c : c15_case) : bool :=
   negb match c with
   | KCollect p ch out => qeqs (qadd_list p ch) out && Nat.eqb (length p) (length ch)
+  | KCollectP rows cols sv sh p ops out =>
+      qeqs (collect_ops cols sv sh p ops) out && forallb (op_ok rows cols sv sh) ops
+      && Nat.eqb (length p) (rows * cols)
   | KQeOff q ph out => qeqs (map (qe_off q) ph) out
   | KQeOn q ph out => Nat.eqb (length ph) (length out)       (* the draw itself is not modelled *)
+  | KQeSel samp arg char ph out =>
+      match qe_select arg char, out with
+      | None, None => true
+      | Some q, Some o => if samp then Nat.eqb (length ph) (length o) else qeqs (map (qe_off q) ph) o
+      | _, _ => false
+      end
+  | KQeMap samp qs ph out =>
+      match qe_map_model qs ph, out with
+      | None, None => true
+      | Some m, Some o => Nat.eqb (length qs) (length ph)
+                          && (if samp then Nat.eqb (length ph) (length o) else qeqs m o)
+      | _, _ => false
+      end
   | KFullWell c x out =>
       match simple_full_well c x, out with
+      | None, None => true
+      | Some m, Some (o1, o2) => qeqs m o1 && qeqs m o2
+      | _, _ => false
+      end
+  | KFullWellS arg char x out =>
+      match simple_full_well_sel arg char x, out with
       | None, None => true
       | Some m, Some (o1, o2) => qeqs m o1 && qeqs m o2
       | _, _ => false
@@ -387,9 +551,15 @@ Definition case_mismatch (c : c15_case) : bool :=
       end
   | KPersist c => persist_agree c (pc_pix0 c) (pc_trap0 c) (pc_steps c)
   | KCdm _ _ => true
+  | KCdmG vg beta fwc t raised => Bool.eqb raised (negb (cdm_params_ok vg beta fwc t))
   | KCdmX gs pcs rs inj li lo =>
       let sc := 1 + maxabs (concat li) in
       all2 (all2 (close tol_cdm sc)) (cdm_run (cdm_par_beta1 gs pcs rs inj) (length gs) li) lo
+  | KCdmT gs rs inj tbls li lo =>
+      let sc := 1 + maxabs (concat li) in
+      forallb table_ok tbls && Nat.eqb (length tbls) (length li)
+      && all2 (all2 (close tol_cdm sc))
+              (cdm_run_each (map (cdm_par_table gs rs inj) tbls) (length gs) li) lo
   end.
 
 (* inputs are generated inside the documented ranges, so the implementation must not raise and its
@@ -397,13 +567,38 @@ Definition case_mismatch (c : c15_case) : bool :=
 Definition case_violates (c : c15_case) : bool :=
   negb match c with
   | KCollect p ch out => all2 (fun pc o => Qeq_bool (fst pc + snd pc) o) (combine p ch) out
-  | KQeOff q ph out => all2 (fun p o => Qeq_bool o (p * q) && Qle_bool 0 o && Qle_bool o p) ph out
-  | KQeOn q ph out =>
-      all2 (fun p o => is_int o && Qle_bool 0 o && Qle_bool o (inject_Z (Qfloor p))) ph out
+  | KCollectP rows cols sv sh p ops out =>
+      (* every pixel receives exactly the charge generated for it, however the charge is held *)
+      all2 (fun pc o => Qeq_bool (fst pc + snd pc) o)
+           (combine p (charge_array cols sv sh ops (map (fun _ => 0) p))) out
+      && Qeq_bool (qsum out) (qsum p + ops_total ops)
+  | KQeOff q ph out => all2 (qe_off_ok q) ph out
+  | KQeOn q ph out => all2 (qe_on_ok q) ph out
+  | KQeSel samp arg char ph out =>
+      (* the efficiency is the argument when given, else the characteristics' (0.0 is a given argument) *)
+      match arg, char, out with
+      | None, None, _ => match out with None => true | Some _ => false end
+      | Some q, _, Some o | None, Some q, Some o =>
+          Qle_bool 0 q && Qle_bool q 1 && all2 (if samp then qe_on_ok q else qe_off_ok q) ph o
+      | Some q, _, None | None, Some q, None => negb (Qle_bool 0 q && Qle_bool q 1)
+      end
+  | KQeMap samp qs ph out =>
+      match out with
+      | None => negb (forallb qe_in_range qs)
+      | Some o => forallb qe_in_range qs && all3 (if samp then qe_on_ok else qe_off_ok) qs ph o
+      end
   | KFullWell c x out =>
       match out with
       | None => Qltb c 0
       | Some (o1, o2) => negb (Qltb c 0) && all2 (fun v o => Qeq_bool o (qmin v c)) x o1 && qeqs o1 o2
+      end
+  | KFullWellS arg char x out =>
+      (* capacity = the argument when given (it overrides), else the characteristics'; neither: raises *)
+      match arg, char, out with
+      | None, None, _ => match out with None => true | Some _ => false end
+      | Some c, _, None | None, Some c, None => Qltb c 0
+      | Some c, _, Some (o1, o2) | None, Some c, Some (o1, o2) =>
+          negb (Qltb c 0) && all2 (fun v o => Qeq_bool o (qmin v c)) x o1 && qeqs o1 o2
       end
   | KKernel c d a out =>
       match out with
@@ -422,7 +617,11 @@ Definition case_violates (c : c15_case) : bool :=
          end
   | KPersist c => persist_spec (pc_pix0 c) (pc_trap0 c) (pc_steps c)
   | KCdm li lo => cdm_spec li lo
+  | KCdmG vg beta fwc t raised =>
+      (* inside the documented ranges the model runs; a refusal is only acceptable outside them *)
+      if raised then negb (cdm_params_ok vg beta fwc t) else true
   | KCdmX _ _ _ _ li lo => cdm_spec li lo
+  | KCdmT _ _ _ _ li lo => cdm_spec li lo
   end.
 
 Fixpoint indices_where {A} (f : A -> bool) (l : list A) (i : Z) : list Z :=
